@@ -19,8 +19,10 @@ import (
 	"crypto/hmac"
 	"crypto/sha256"
 	"crypto/sha512"
+	"crypto/x509"
 	"encoding/base64"
 	"encoding/json"
+	"encoding/pem"
 	"fmt"
 	"math"
 	"math/rand/v2"
@@ -48,7 +50,7 @@ type c30Keys struct {
 	conf map[string]ed25519.PublicKey
 }
 
-func c30MakeKeys(rnd *rand.Rand) (*c30Keys, *vkuth.JWTHelper, error) {
+func c30MakeKeys(rnd *rand.Rand, how int) (*c30Keys, *vkuth.JWTHelper, error) {
 	k := &c30Keys{conf: map[string]ed25519.PublicKey{}}
 	var enc []string
 	for i := 0; i < 3; i++ {
@@ -71,14 +73,45 @@ func c30MakeKeys(rnd *rand.Rand) (*c30Keys, *vkuth.JWTHelper, error) {
 			enc = append(enc, c30B64(pub))
 		}
 	}
-	conf, err := vkuth.ParseVkuthKeys(enc)
+	// the three ways the server can be given its keys must agree on the key ids
+	var conf map[string][]byte
+	var err error
+	switch how % 3 {
+	case 0:
+		conf, err = vkuth.ParseVkuthKeys(enc)
+	case 1:
+		var pems []string
+		for i := 0; i < 2; i++ {
+			pems = append(pems, c30PEM(k.pub[i]))
+		}
+		conf, err = vkuth.ParseVkuthKeysPem(pems)
+	case 2:
+		var pems []string
+		for i := 0; i < 2; i++ {
+			pems = append(pems, c30B64([]byte(c30PEM(k.pub[i]))))
+		}
+		conf, err = vkuth.ParseVkuthKeysPemInBase64(pems)
+	}
 	if err != nil {
 		return nil, nil, err
+	}
+	for i := 0; i < 2; i++ {
+		if b, ok := conf[k.kid[i]]; !ok || !ed25519.PublicKey(b).Equal(k.pub[i]) {
+			return nil, nil, fmt.Errorf("key loader %d does not file key %d under its fingerprint %s", how%3, i, k.kid[i])
+		}
 	}
 	for id, b := range conf {
 		k.conf[id] = ed25519.PublicKey(b)
 	}
 	return k, vkuth.NewJWTHelper(conf, c30App), nil
+}
+
+func c30PEM(pub ed25519.PublicKey) string {
+	der, err := x509.MarshalPKIXPublicKey(pub)
+	if err != nil {
+		panic(err)
+	}
+	return string(pem.EncodeToMemory(&pem.Block{Type: "PUBLIC KEY", Bytes: der}))
 }
 
 // ---------------------------------------------------------------------------------------
@@ -508,11 +541,12 @@ func TestVerifC30(t *testing.T) {
 	}
 	r.Parallel(workers, "tokens", func(w *verifkit.Worker) {
 		rnd := w.Rnd
-		keys, helper, err := c30MakeKeys(rnd)
+		keys, helper, err := c30MakeKeys(rnd, w.Index)
 		if err != nil {
-			r.Inconclusive("cannot make keys: " + err.Error())
+			r.Violation("C30/keys/loader", "configured keys are not usable: "+err.Error(), map[string]any{"loader": w.Index % 3})
 			return
 		}
+		w.Count(fmt.Sprintf("key_loader.%d", w.Index%3), 1)
 		now := time.Unix(1790000000, 0)
 		helper.SetNow(func() time.Time { return now })
 		for i := 0; i < n/workers; i++ {
@@ -522,6 +556,29 @@ func TestVerifC30(t *testing.T) {
 			c30Judge(r, w, rnd, keys, helper, now, tok, granted, protected, i)
 		}
 	})
+	c30Modes(r)
+}
+
+// local / insecure mode hand out a fixed identity without looking at the token: a deployment
+// switch outside the statement; exercised and recorded, not judged
+func c30Modes(r *verifkit.Run) {
+	rnd := r.Rand("modes")
+	_, helper, err := c30MakeKeys(rnd, 0)
+	if err != nil {
+		return
+	}
+	for i := 0; i < 40; i++ {
+		local, insecure := i%2 == 0, i%3 == 0
+		if !local && !insecure {
+			continue
+		}
+		ai, err := parseAccessToken(helper, []string{"", "garbage", "a.b.c"}[rnd.IntN(3)], []string{"prot_"}, local, insecure)
+		if err == nil && ai.bitViewDefault {
+			r.NotJudged("local_or_insecure_mode_identity_without_token", 1)
+		} else {
+			r.NotJudged("local_or_insecure_mode_refused", 1)
+		}
+	}
 }
 
 func c30Judge(r *verifkit.Run, w *verifkit.Worker, rnd *rand.Rand, keys *c30Keys, helper *vkuth.JWTHelper, now time.Time, tok c30Token, granted []string, protected []string, i int) {
